@@ -9,7 +9,7 @@ import numpy as np
 
 from checks import common, mahal
 from checks.common import case
-from symx import core, slicer, stubs
+from symx import core, slicer, stubs, harness
 
 FUNCS = ['metric_learn.itml._BaseITML._fit (whole, <= 2 sweeps)', 'positive-pair projection loop body (sliced from _fit)',
          'negative-pair projection loop body (sliced from _fit)', 'outer sweep body: convergence test (sliced from _fit)',
@@ -102,7 +102,7 @@ def sweep_tail_case():
     ctx.assume(ctx.and_(*[ctx.ge(x, 0, tol=0.0) for x in list(lam) + list(old)]))
     ctx.assume(ctx.gt(tol, 0))
 
-    class S:
+    class S(harness.StandIn):
       pass
     self_ = S()
     self_.tol, self_.verbose = tol, False
